@@ -73,7 +73,7 @@ def generate(R, tier):
     if kind == "strat-low":
         sc.update(fn=R.choice(sorted(LOW)), N=R.choice([64, 100, 250, 1000]), xosrc=R.choice(["arbitrary", "arbitrary", "map"]))
     elif kind == "strat-prot":
-        sc.update(prot=R.choice(sorted(PROT)), N=R.choice([50, 64, 100, 200]), xosrc=R.choice(["arbitrary", "map"]))
+        sc.update(prot=R.choice(sorted(PROT)), N=R.choice([50, 64, 100, 200]), xosrc=R.choice(["arbitrary", "map"]), inbred=R.random() < 0.6)
     elif kind == "strat-chain":
         # two generations: the progeny object returned by one protocol is itself mated; its meioses must follow the same probabilities
         sc.update(prot=R.choice(["2w", "3w", "4w"]), N=R.choice([64, 100, 200]), xosrc=R.choice(["arbitrary", "map"]))
@@ -267,7 +267,8 @@ def execute(sc):
     elif kind == "strat-prot":
         cls, npar, isdh = PROT[sc["prot"]]
         C = cls.__name__ + ".mate"
-        hetero = not isdh
+        # inbred parents make the later meioses of the multi-way protocols readable (which founder pair / which founder)
+        hetero = not isdh and not (sc.get("inbred") and sc["prot"] in ("3w", "4w"))
         pg = _parents(sc, chrgrp, phypos, genpos, xo, 4, hetero)
         if pg is None:
             return _out(sc, V, log, faults, probes, 0, g)
@@ -288,14 +289,33 @@ def execute(sc):
             cols = [pm[0] % 2, pm[1] % 2]
         elif sc["prot"] == "2w":
             cols = [pm[0] % 2, pm[1] % 2]
-        elif sc["prot"] == "3w":
+        elif sc["prot"] == "3w" and hetero:
             cols = [pm[0] % 2]                      # copy 0 = gamete of the recurrent parent (heterozygous by construction)
+        elif sc["prot"] == "3w":
+            # inbred parents 0 (recurrent), 1, 2: the copy that is not the recurrent parent's is one gamete of the hybrid 1 x 2
+            cols = [(pm[c] == 2).astype(int) for c in (0, 1) if set(numpy.unique(pm[c]).tolist()) <= {1, 2}]
+            faults["readout_hybrid_gamete_of_three_way"] = 1
+        elif sc["prot"] == "4w" and not hetero:
+            # inbred parents: each copy is one gamete of the hybrid of one founder pair
+            cols = []
+            for c in (0, 1):
+                codes = set(numpy.unique(pm[c]).tolist())
+                for pair in ({0, 1}, {2, 3}):
+                    if codes <= pair:
+                        cols.append((pm[c] == max(pair)).astype(int))
+            faults["readout_hybrid_gametes_of_four_way"] = 1
         elif isdh:
             # homozygous parents A x B (and C, D): the DH gamete comes from the hybrid; phase = which parent's code
             if sc["prot"] == "2wdh":
                 cols = [(pm[0] == 1).astype(int)]
+            elif sc["prot"] == "3wdh":
+                # gamete of the three-way hybrid (recurrent 0 | gamete of 1 x 2): which side each locus came from
+                cols = [numpy.isin(pm[0], [1, 2]).astype(int)]
+                faults["readout_final_meiosis_of_multiway_dh"] = 1
             else:
-                cols = []
+                # gamete of the four-way hybrid (gamete of 0 x 1 | gamete of 2 x 3)
+                cols = [numpy.isin(pm[0], [2, 3]).astype(int)]
+                faults["readout_final_meiosis_of_multiway_dh"] = 1
         else:
             cols = []
         if not cols:
